@@ -490,13 +490,13 @@ fn run_task(h: &Harness, shard: usize, task: usize, prop: &str, tier: Tier, stat
         .output()
 }
 
-enum TaskResult {
+pub enum TaskResult {
     Done(serde_json::Value),
     Died { state: Option<usize>, how: String, journal: String },
     Machinery(String),
 }
 
-fn run_task_checked(h: &Harness, shard: usize, task: usize, prop: &str, tier: Tier, states: &[usize]) -> TaskResult {
+pub fn run_task_checked(h: &Harness, shard: usize, task: usize, prop: &str, tier: Tier, states: &[usize]) -> TaskResult {
     let o = match run_task(h, shard, task, prop, tier, states) {
         Ok(o) => o,
         Err(e) => return TaskResult::Machinery(format!("cannot run shard {shard}: {e}")),
